@@ -18,7 +18,7 @@ LEVEL = "model_checking"
 
 
 def tlc_models(ctx):
-    cfgs = ["MC_ThreadPool_q1.cfg", "MC_ThreadPool_q2.cfg"] if ctx.quick() else ["MC_ThreadPool_q1.cfg", "MC_ThreadPool_q2.cfg", "MC_ThreadPool_t1.cfg", "MC_ThreadPool_t2.cfg", "MC_ThreadPool_t3.cfg"]
+    cfgs = ["MC_ThreadPool_q1.cfg", "MC_ThreadPool_q2.cfg"] if ctx.quick() else ["MC_ThreadPool_q1.cfg", "MC_ThreadPool_q2.cfg", "MC_ThreadPool_t1.cfg", "MC_ThreadPool_t2.cfg", "MC_ThreadPool_t3.cfg", "MC_ThreadPool_qm.cfg"]
     for c in cfgs:
         r = core.tlc("ThreadPool", c, workers=8 if ctx.quick() else 12, timeout=3000)
         if not r.ok:
@@ -33,7 +33,7 @@ def ring1(ctx, b):
     runs = 300 if ctx.quick() else 4000
     n = 0
     for (P, J, NC) in [(1, 3, 1), (2, 3, 1), (2, 4, 1), (3, 5, 1), (1, 2, 2), (2, 3, 2)] + ([] if ctx.quick() else [(3, 6, 2), (4, 8, 1), (2, 0, 1)]):
-        for ordered in (1, 0):
+        for ordered in ((1, 0, 2) if NC > 1 else (1, 0)):        # 2: client 1 ordered (a writer), the others unordered (sorters)
             for (mode, npre, sp) in [(0, 0, 0), (0, 0, 20), (1, 2, 0), (1, 3, 10)]:
                 out = os.path.join(wd, "p%d.ndjson" % n)
                 seed0 = ctx.seed % 100000 + n * 7919
@@ -43,7 +43,7 @@ def ring1(ctx, b):
                 ctx.add("pool_configs", 1)
                 ok, depth, r = core.validate_trace(out, "Trace_Pool", timeout=900)
                 ctx.add("trace_events", sum(1 for _ in open(out)))
-                cfgd = {"max": P, "jobs": J, "clients": NC, "ordered": bool(ordered), "mode": mode, "npreempt": npre, "spurious_pct": sp, "seed0": seed0}
+                cfgd = {"max": P, "jobs": J, "clients": NC, "ordered": ["no", "yes", "client 1 only"][ordered], "mode": mode, "npreempt": npre, "spurious_pct": sp, "seed0": seed0}
                 if n == 0:
                     ctx.sample({"ring": 1, "cfg": cfgd, "events": [json.loads(x) for x in open(out).readlines()[:12]]})
                 if p.returncode != 0 or not ok:
@@ -70,7 +70,7 @@ def ring1_systematic(ctx, b):
     """every schedule with at most `bound` preemptions (under three fixed policies for the choices at blocking points)"""
     prog = build.compile_prog("sched", "pool_drv", ["pool_drv.c", "vs_sched.c"], extra_flags=["-I", os.path.join(build.REPO, "mtbl")])
     wd = ctx.sub("ring1s")
-    plan = [(1, 2, 1, 1, 2), (2, 2, 1, 1, 2), (2, 2, 0, 1, 2), (2, 3, 1, 1, 1), (2, 3, 0, 1, 1), (1, 2, 1, 2, 1), (2, 2, 0, 2, 1)]
+    plan = [(1, 2, 1, 1, 2), (2, 2, 1, 1, 2), (2, 2, 0, 1, 2), (2, 3, 1, 1, 1), (2, 3, 0, 1, 1), (1, 2, 1, 2, 1), (2, 2, 0, 2, 1), (1, 2, 2, 2, 1), (2, 2, 2, 2, 1)]
     if not ctx.quick():
         plan += [(2, 3, 1, 1, 2), (2, 3, 0, 1, 2), (3, 3, 0, 1, 2), (2, 2, 1, 2, 2), (3, 4, 1, 1, 1)]
     for n, (P, J, ordered, NC, bound) in enumerate(plan):
@@ -80,7 +80,7 @@ def ring1_systematic(ctx, b):
         nsch = int(m.group(1)) if m else 0
         ctx.add("schedules", nsch)
         ctx.add("systematic_schedules", nsch)
-        cfgd = {"max": P, "jobs": J, "clients": NC, "ordered": bool(ordered), "preemption_bound": bound}
+        cfgd = {"max": P, "jobs": J, "clients": NC, "ordered": ["no", "yes", "client 1 only"][ordered], "preemption_bound": bound}
         ok, depth, r = core.validate_trace(out, "Trace_Pool", timeout=3000)
         if p.returncode != 0 or not ok:
             recs = [json.loads(x) for x in open(out)]
@@ -111,7 +111,7 @@ def ring1_model_replay(ctx, b):
     cap = 1500 if ctx.quick() else 20000
     for (MT, J, ordered) in [(2, 3, False), (2, 3, True)] + ([] if ctx.quick() else [(3, 3, False), (1, 3, True)]):
         cfgp = os.path.join(wd, "H.cfg")
-        open(cfgp, "w").write("SPECIFICATION Spec\nCONSTANTS MaxThreads = %d NC = 1 Jobs = %d Ordered = %s MaxSpurious = 0 defaultInitValue = defaultInitValue\nINVARIANT DumpHist\nCHECK_DEADLOCK FALSE\n" % (MT, J, "TRUE" if ordered else "FALSE"))
+        open(cfgp, "w").write("SPECIFICATION Spec\nCONSTANTS MaxThreads = %d NC = 1 Jobs = %d Ordered = %s MaxSpurious = 0 Mixed = FALSE defaultInitValue = defaultInitValue\nINVARIANT DumpHist\nCHECK_DEADLOCK FALSE\n" % (MT, J, "TRUE" if ordered else "FALSE"))
         r = core.tlc("ThreadPoolH", cfgp, workers=2, simulate="num=%d" % (40 if ctx.quick() else 400), extra=["-depth", "500", "-seed", str(ctx.seed)], timeout=1200)
         if r.inv_violated or r.error:
             raise core.Infra("ThreadPoolH simulation failed:\n" + r.out[-2000:])
@@ -257,11 +257,11 @@ def ring1_steps(ctx, b):
     ctx.cov.setdefault("model_drift_steps", 0)
 
 
-def steps_of_run(ctx, wd, lg, MT, ordered, tag):
+def steps_of_run(ctx, wd, lg, MT, ordered, tag, every=1):
     """pthread-call traces of pooled writers / sorters (one pool, one client) against ThreadPool.tla; Jobs = number of dispatches"""
     if not os.path.exists(lg):
         return
-    execs = convert_steps(lg)
+    execs = convert_steps(lg)[::every]
     os.unlink(lg)
     groups = {}
     for e in execs:
@@ -342,6 +342,100 @@ def ring2(ctx, b):
                     {"kind": "trace", "module": "Trace_Pool", "trace": ex, "line": line})
 
 
+def systematic_clients(ctx, b):
+    """pooled writers and pooled sorters under every schedule with at most one preemption (thorough: two, for the smallest
+    cases): the run is preemption-free except at chosen scheduling steps, where another enabled thread is taken; the choices
+    at blocking points follow three fixed policies. Writers: file identical to the pool-less file; sorters: abstract sorter."""
+    rng = ctx.rng
+    wd = ctx.sub("sysc")
+    plain = build.build("asan")
+    vg = gen.VGen(33000)
+    cases = []
+    for P in ((2,) if ctx.quick() else (1, 2, 3)):
+        entries = [(("k%02d" % i).encode(), vg.val(450)) for i in range(4 if ctx.quick() else 7)]
+        for comp in (["zlib"] if ctx.quick() else ["zlib", "none"]):
+            ref = os.path.join(wd, "ref_%s_%d.mtbl" % (comp, P))
+            if os.path.exists(ref):
+                os.unlink(ref)
+            evs, rc, err = core.run_drv(plain, "\n".join(["scratch " + wd] + gen.write_table_lines(0, ref, gen.writer_cfg(comp=comp), entries)) + "\n", wd, "ref")
+            if rc != 0:
+                raise core.Infra("reference writer run failed: " + err[-500:])
+            cases.append(("writer", P, comp, entries, ref))
+        adds = [(rng.choice([b"", b"a", b"ab", b"b"]), 2 * i + 1) for i in range(4 if ctx.quick() else 7)]
+        cases.append(("sorter", P, None, adds, None))
+
+    def body(kind, P, comp, data, pth, tmp):
+        if kind == "writer":
+            return ["scratch " + wd, "pool_init 0 %d" % P] + gen.write_table_lines(0, pth, gen.writer_cfg(comp=comp, pool=0), data) + ["pool_destroy 0"]
+        L = ["scratch " + wd, "pool_init 0 %d" % P, "s_init 0 40 %s 1 -1 0" % tmp]
+        for k, tok in data:
+            L.append("s_add 0 %s T%d,%d" % (shapes.hexs(k), tok, tok + 1))
+        return L + ["s_iter 0 1", "it_drain 1", "it_destroy 1", "s_destroy 0", "pool_destroy 0"]
+
+    for ci, (kind, P, comp, data, ref) in enumerate(cases):
+        tmp = os.path.join(wd, "t%d" % ci)
+        os.makedirs(tmp, exist_ok=True)
+        # base runs: one per policy, to learn the number of scheduling steps
+        plans = []
+        for policy in ((0, 2) if ctx.quick() else (0, 1, 2)):
+            pth = os.path.join(wd, "c%d_base%d.mtbl" % (ci, policy))
+            if os.path.exists(pth):
+                os.unlink(pth)
+            evs, rc, err = core.run_drv(b, "\n".join(["sched_dec %d" % policy] + body(kind, P, comp, data, pth, tmp) + ["---"]) + "\n", wd, "base", fork=True, timeout=300)
+            st = [e for e in evs if e["e"] == "Sched"]
+            nsteps = st[0]["steps"] if st else 0
+            plans.append((policy, [], pth))
+            for s_ in range(nsteps):
+                for c_ in range(3):
+                    plans.append((policy, [(s_, c_)], None))
+            if not ctx.quick() and P == 1 and kind == "writer" and comp == "zlib":
+                for s_ in range(0, nsteps, 3):
+                    for s2 in range(s_ + 1, min(nsteps, s_ + 40), 2):
+                        plans.append((policy, [(s_, 0), (s2, 0)], None))
+        lines, paths = [], []
+        for k, (policy, decs, pth0) in enumerate(plans):
+            pth = os.path.join(wd, "c%d_%d.mtbl" % (ci, k))
+            if os.path.exists(pth):
+                os.unlink(pth)
+            paths.append(pth)
+            lines += ["sched_dec %d %s" % (policy, " ".join("%d:%d" % d for d in decs))] + body(kind, P, comp, data, pth, tmp) + ["---"]
+        lg = os.path.join(wd, "steps.log")
+        if os.path.exists(lg):
+            os.unlink(lg)
+        evs, rc, err = core.run_drv(b, "\n".join(lines) + "\n", wd, "sys%d" % ci, fork=True, timeout=3000, env={"VS_LOG": lg})
+        steps_of_run(ctx, wd, lg, P, kind == "writer", "y", every=5 if ctx.quick() else 1)
+        recs = core.convert_events(evs)
+        out = []
+        for ex in core.split_execs(recs):
+            k = ex[0].get("x", 0)
+            policy, decs, _ = plans[k]
+            sch = [e for e in ex if e["e"] == "Sched"]
+            ext = [e for e in ex if e["e"] == "Exit"]
+            if sch and sch[0].get("invalid"):
+                if os.path.exists(paths[k]):
+                    os.unlink(paths[k])
+                continue                # no such alternative at that step: the schedule equals one already explored
+            ctx.add("schedules", 1)
+            ctx.add("systematic_client_schedules", 1)
+            bad = ext and (ext[0]["code"] != 0 or ext[0]["sig"] != 0)
+            if bad:
+                dl = any(e["e"] == "Deadlock" for e in ex) or ext[0]["code"] == 3
+                core.report(ctx, "pooled %s (pool %d) under the schedule with preemptions %s, policy %d: %s" % (kind, P, decs, policy, "scheduler verdict: deadlock" if dl else "ended with code %s signal %s" % (ext[0]["code"], ext[0]["sig"])),
+                            {"kind": "abnormal", "why": "deadlock" if dl else "abnormal end", "pool": P, "decisions": decs, "policy": policy})
+            elif kind == "writer":
+                same = os.path.exists(paths[k]) and filecmp.cmp(paths[k], ref, shallow=False)
+                if not same:
+                    core.report(ctx, "pooled writer (pool %d, %s) under the schedule with preemptions %s, policy %d: file differs from the pool-less file" % (P, comp, decs, policy),
+                                {"kind": "abnormal", "why": "file differs", "pool": P, "decisions": decs, "policy": policy})
+            else:
+                out += [e for e in ex if e["e"] not in ("Sched", "Deadlock")]
+            if os.path.exists(paths[k]):
+                os.unlink(paths[k])
+        if out:
+            for ex, line in core.validate_batch(ctx, out, "sysc%d" % ci):
+                core.report(ctx, "pooled sorter under a systematic schedule: output differs from the abstract sorter at trace line %d: %s" % (line, json.dumps(ex[line - 1])[:300]), {"kind": "trace", "trace": ex, "line": line})
+
+
 def ring3(ctx, b):
     """pooled sorters under the scheduler, judged by the abstract sorter (Trace_Mtbl)"""
     rng = ctx.rng
@@ -384,27 +478,49 @@ def ring3(ctx, b):
 
 
 def real_threads(ctx):
-    """pools 1..8 with real threads under a watchdog: close/destroy must return"""
+    """pools 1..8 with real threads (true parallelism: several job callbacks run at once, which the deterministic scheduler
+    never does) under a watchdog: close/destroy must return and the file must be the pool-less file, every compression type"""
     b = build.build("asan")
     rng = ctx.rng
     wd = ctx.sub("real")
-    lines = []
+    lines, meta = [], []
     vg = gen.VGen(77000)
     entries = [(("r%04d" % i).encode(), vg.val(400)) for i in range(60)]
-    for P in ([1, 3, 8] if ctx.quick() else [1, 2, 3, 4, 5, 6, 7, 8]):
-        for rep in range(3 if ctx.quick() else 20):
-            pth = os.path.join(wd, "r_%d_%d.mtbl" % (P, rep))
-            if os.path.exists(pth):
-                os.unlink(pth)
-            lines += ["scratch " + wd, "pool_init 0 %d" % P] + gen.write_table_lines(0, pth, gen.writer_cfg(comp="zlib", pool=0), entries) + ["pool_destroy 0", "---"]
-    evs, rc, err = core.run_drv(b, "\n".join(lines) + "\n", wd, "real", fork=True, timeout=600)
+    refs = {}
+    for comp in gen.COMPS:
+        ref = os.path.join(wd, "ref_%s.mtbl" % comp)
+        if os.path.exists(ref):
+            os.unlink(ref)
+        evs, rc, err = core.run_drv(b, "\n".join(["scratch " + wd] + gen.write_table_lines(0, ref, gen.writer_cfg(comp=comp), entries)) + "\n", wd, "ref")
+        if rc != 0:
+            raise core.Infra("reference writer run failed: " + err[-500:])
+        refs[comp] = ref
+    for comp in gen.COMPS:
+        for P in ([2, 8] if ctx.quick() else [1, 2, 3, 4, 5, 6, 7, 8]):
+            for rep in range(3 if ctx.quick() else 12):
+                pth = os.path.join(wd, "r_%s_%d_%d.mtbl" % (comp, P, rep))
+                if os.path.exists(pth):
+                    os.unlink(pth)
+                lines += ["scratch " + wd, "pool_init 0 %d" % P] + gen.write_table_lines(0, pth, gen.writer_cfg(comp=comp, pool=0), entries) + ["pool_destroy 0", "---"]
+                meta.append((comp, P, pth))
+    evs, rc, err = core.run_drv(b, "\n".join(lines) + "\n", wd, "real", fork=True, timeout=1200, env={"VS_EXEC_TIMEOUT": "60"})
     if rc == -999:
         core.report(ctx, "pooled writer with real threads did not return within the watchdog time (hang)", {"kind": "abnormal", "why": "timeout"})
+    k = -1
     for e in evs:
-        if e["e"] == "Exit":
+        if e["e"] == "Reset":
+            k = e["x"]
+        elif e["e"] == "Exit":
+            comp, P, pth = meta[k]
             ctx.add("real_thread_runs", 1)
             if e["code"] != 0 or e["sig"] != 0:
-                core.report(ctx, "pooled writer with real threads ended with code %s signal %s" % (e["code"], e["sig"]), {"kind": "abnormal", "why": "code %s sig %s" % (e["code"], e["sig"])})
+                core.report(ctx, "pooled writer (%s, pool %d) with real threads %s" % (comp, P, "did not return within the watchdog time" if e["sig"] == 14 else "ended with code %s signal %s" % (e["code"], e["sig"])),
+                            {"kind": "abnormal", "why": "code %s sig %s" % (e["code"], e["sig"]), "comp": comp, "pool": P})
+            elif not (os.path.exists(pth) and filecmp.cmp(pth, refs[comp], shallow=False)):
+                core.report(ctx, "pooled writer (%s, pool %d) with real threads: file differs from the pool-less file" % (comp, P),
+                            {"kind": "abnormal", "why": "file differs", "comp": comp, "pool": P})
+            if os.path.exists(pth):
+                os.unlink(pth)
 
 
 def run(ctx):
@@ -416,6 +532,7 @@ def run(ctx):
     ring1_steps(ctx, b)
     ring2(ctx, b)
     ring3(ctx, b)
+    systematic_clients(ctx, b)
     real_threads(ctx)
     cov = {"states": ctx.cov.get("states", 0), "transitions": ctx.cov.get("transitions", 0),
            "traces_validated_against_impl": ctx.cov.get("traces_validated_against_impl", 0),
